@@ -161,10 +161,17 @@ inductive Via
   | evalIndirect                -- `callee("…")` where callee evaluates to eval: native scope "eval", then enterGlobalScope for the eval code
 deriving Repr, DecidableEq
 
+/-- how control leaves a piece of code: by completing, or by a JavaScript exception (a Go panic that unwinds) -/
+inductive Exit | normal | throw
+deriving Repr, DecidableEq
+
 /-- statements already completed in the calling activation before the call site -/
 inductive Pre
   | doneCall (f : Form) (off : Int)      -- an earlier call expression that returned (leaves its `atv` in frame.offset)
-  | directEval (off : Int) (file : Nat)  -- an earlier direct `eval("…")` of source `file`: the call site is recorded, the eval code runs in this scope
+  /-- an earlier direct `eval("…")` of source `file`, finished: the call site is recorded and the eval code runs in
+      this very scope; `inner` = call sites (idx in the eval source) of calls the eval code completed; `exit` = how
+      the eval code ended – `throw`: by an exception that a `try`/`catch` of this same activation caught -/
+  | directEval (off : Int) (file : Nat) (inner : List Int) (exit : Exit)
 deriving Repr, DecidableEq
 
 /- the argument list of a call expression, as far as frames are concerned: which arguments are themselves
@@ -200,12 +207,31 @@ def setTopFile (k : Nat) : Stack → Stack
   | [] => []
   | f :: r => { f with file := some k } :: r
 
+/-- `scp.frame.file, scp.frame.offset = frm.file, frm.offset` -/
+def restoreTop (saved : Frame) : Stack → Stack
+  | [] => []
+  | f :: r => { f with file := saved.file, offset := saved.offset } :: r
+
+/-- cmpl_evaluate.go:14-24, `cmplEvaluateNodeProgram(node, eval=true)` run in the scope whose frame is `saved`:
+    `frm := rt.scope.frame; defer restore(frm)`, then `rt.scope.frame.file = node.file` and the body (whose calls
+    write their sites into the same frame).  The restore is DEFERRED: it runs when the body returns and equally
+    while a panic – a JavaScript exception thrown by the eval code – unwinds through this function.  `exit` is
+    therefore not consulted. -/
+def evalProgram (k : Nat) (inner : List Int) (_exit : Exit) (saved : Frame) (s : Stack) : Stack :=
+  let body := inner.foldl (fun s o => setTopOffset o s) (setTopFile k s)
+  restoreTop saved body
+
+/-- a direct eval call expression, start to finish: the call site is recorded (offset = idx of `eval`), no scope is
+    entered (builtin.go:22-28), the eval program runs in the caller's frame -/
+def directEvalCall (off : Int) (k : Nat) (inner : List Int) (exit : Exit) (s : Stack) : Stack :=
+  match setTopOffset off s with
+  | [] => []
+  | f :: r => evalProgram k inner exit f (f :: r)
+
 def runPre : List Pre → Stack → Stack
   | [], s => s
   | .doneCall f off :: ps, s => runPre ps (setTopOffset (atvOf f off) s)            -- rt.scope.frame.offset = int(atv); callee enters and leaves
-  -- offset = idx of `eval`; no scope; cmplEvaluateNodeProgram(eval=true) sets frame.file = node.file for the eval code
-  -- and restores the frame's file and offset (the eval call site) when it is done (cmpl_evaluate.go:14-22)
-  | .directEval off _ :: ps, s => runPre ps (setTopOffset off s)
+  | .directEval off k inner exit :: ps, s => runPre ps (directEvalCall off k inner exit s)
 
 /- cmpl_evaluate_expression.go:185-191 / :263-266: the arguments are evaluated left to right, in the calling
     activation.  An argument that is itself a call evaluates *its* arguments, then records *its* call site in the
@@ -215,7 +241,7 @@ mutual
 def evalArg : Arg → Stack → Stack
   | .lit, s => s
   | .call f off as, s => setTopOffset (atvOf f off) (evalArgs as s)
-  | .evalDirect off _, s => setTopOffset off s      -- as `Pre.directEval`: file and call site restored afterwards
+  | .evalDirect off k, s => directEvalCall off k [] .normal s    -- as `Pre.directEval`: file and call site restored afterwards
 def evalArgs : Args → Stack → Stack
   | .nil, s => s
   | .cons a r, s => evalArgs r (evalArg a s)
